@@ -15,7 +15,9 @@
 (*            dequeued, or in a worker that has not finished decoding and      *)
 (*            encoding it (NoUseAfterPut)                                      *)
 (*   MirOut   a copy queued for the mirror workers is a received datagram in a   *)
-(*            buffer that is not one the pipeline still holds                    *)
+(*            buffer that is not one the pipeline still holds; with mirroring on *)
+(*            for the whole run (and its queue never full) every datagram a      *)
+(*            worker took has been copied by the End                             *)
 (*   Gone     a worker told to quit (dynamic workers) leaves without a datagram *)
 (*   End      the decoded counter equals the datagrams decoded; every datagram *)
 (*            that yields data was published exactly once (AtMostOnce,         *)
@@ -23,58 +25,62 @@
 EXTENDS Integers, Sequences, FiniteSets, TLC, Json
 Trace == ndJsonDeserialize("trace.ndjson")
 MqCap == 1000      \* capacity of the producer queues (vflow/*.go: make(chan []byte, 1000))
-VARIABLES l, q, wk, mq, consumed, decs, expect
-tvars == <<l, q, wk, mq, consumed, decs, expect>>
+VARIABLES l, q, wk, mq, consumed, decs, expect,
+          mir      \* [on, deqs, outs]: mirroring is enabled for the whole run / datagrams dequeued / copies handed to the mirror
+tvars == <<l, q, wk, mq, consumed, decs, expect, mir>>
 Ev == Trace[l]
 Idle == [gate |-> "none", d |-> 0, b |-> 0, p |-> 0]
 TraceInit == /\ l = 1 /\ q = <<>> /\ wk = [w \in {} |-> Idle] /\ mq = <<>> /\ consumed = <<>> /\ decs = 0
              /\ expect = {}        \* datagrams for which a message was encoded
+             /\ mir = [on |-> 0, deqs |-> 0, outs |-> 0]
              /\ TLCSet(1, 1)
 Is(e) == l <= Len(Trace) /\ Ev.ev = e /\ l' = l + 1
 Put(f, k, v) == [x \in DOMAIN f \cup {k} |-> IF x = k THEN v ELSE f[x]]
 W(k) == IF k \in DOMAIN wk THEN wk[k] ELSE Idle
 F(r, name, dflt) == IF name \in DOMAIN r THEN r[name] ELSE dflt
 
-TReset == Is("Reset") /\ q' = <<>> /\ wk' = [w \in {} |-> Idle] /\ mq' = <<>> /\ consumed' = <<>> /\ decs' = 0 /\ expect' = {}
+TReset == /\ Is("Reset") /\ q' = <<>> /\ wk' = [w \in {} |-> Idle] /\ mq' = <<>> /\ consumed' = <<>> /\ decs' = 0 /\ expect' = {}
+          /\ mir' = [on |-> F(Ev, "mir", 0), deqs |-> 0, outs |-> 0]
 Held == {q[i].b : i \in 1..Len(q)} \cup {wk[w].b : w \in {x \in DOMAIN wk : wk[x].gate \in {"Deq", "Dec"}}}
 (* the buffer the receive loop got from the pool is not one a datagram in flight still lives in *)
 TRecv == /\ Is("Recv") /\ Ev.b \notin Held /\ q' = Append(q, [d |-> F(Ev, "d", 0), b |-> Ev.b])
-         /\ UNCHANGED <<wk, mq, consumed, decs, expect>>
+         /\ UNCHANGED <<wk, mq, consumed, decs, expect, mir>>
 TDeq == /\ Is("Deq") /\ q # <<>> /\ Head(q).d = F(Ev, "d", 0) /\ Head(q).b = Ev.b
         /\ W(Ev.w).gate \in {"Top", "none"}
         /\ q' = Tail(q) /\ wk' = Put(wk, Ev.w, [gate |-> "Deq", d |-> F(Ev, "d", 0), b |-> Ev.b, p |-> 0])
-        /\ UNCHANGED <<mq, consumed, decs, expect>>
+        /\ mir' = [mir EXCEPT !.deqs = @ + 1] /\ UNCHANGED <<mq, consumed, decs, expect>>
 TDec == /\ Is("Dec") /\ W(Ev.w).gate = "Deq" /\ W(Ev.w).d = F(Ev, "d", 0)
         /\ wk' = Put(wk, Ev.w, [W(Ev.w) EXCEPT !.gate = "Dec"]) /\ decs' = decs + 1
-        /\ UNCHANGED <<q, mq, consumed, expect>>
+        /\ UNCHANGED <<q, mq, consumed, expect, mir>>
 (* the encoded message is the message of the worker's own datagram *)
 TMar == /\ Is("Mar") /\ W(Ev.w).gate = "Dec" /\ W(Ev.w).d = F(Ev, "d", 0)
         /\ Ev.p = W(Ev.w).d /\ Ev.p > 0
         /\ wk' = Put(wk, Ev.w, [W(Ev.w) EXCEPT !.gate = "Mar", !.p = Ev.p]) /\ expect' = expect \cup {Ev.p}
-        /\ UNCHANGED <<q, mq, consumed, decs>>
+        /\ UNCHANGED <<q, mq, consumed, decs, mir>>
 (* the message goes on the producer's queue - or nowhere when that queue is full (MqCap messages behind): dropped, *)
 (* never kept for later, never put anywhere else                                                                  *)
 TTop == /\ Is("Top")
         /\ mq' = IF W(Ev.w).gate = "Mar" /\ Len(mq) < MqCap THEN Append(mq, W(Ev.w).p) ELSE mq
         /\ expect' = IF W(Ev.w).gate = "Mar" /\ Len(mq) >= MqCap THEN expect \ {W(Ev.w).p} ELSE expect
         /\ wk' = Put(wk, Ev.w, [gate |-> "Top", d |-> 0, b |-> 0, p |-> 0])
-        /\ UNCHANGED <<q, consumed, decs>>
+        /\ UNCHANGED <<q, consumed, decs, mir>>
 TConsume == /\ Is("Consume") /\ mq # <<>> /\ Ev.p = Head(mq)
             /\ mq' = Tail(mq) /\ consumed' = Append(consumed, Ev.p)
-            /\ UNCHANGED <<q, wk, decs, expect>>
+            /\ UNCHANGED <<q, wk, decs, expect, mir>>
 TProbe == /\ Is("Probe") /\ {Ev.got[i] : i \in 1..Len(Ev.got)} \cap Held = {}
-          /\ UNCHANGED <<q, wk, mq, consumed, decs, expect>>
+          /\ UNCHANGED <<q, wk, mq, consumed, decs, expect, mir>>
 (* mirroring: a copy handed to the mirror workers is a received datagram, in a buffer of its own *)
 TMirOut == /\ Is("MirOut") /\ F(Ev, "n", 0) = 1 /\ Ev.b \notin Held
-           /\ UNCHANGED <<q, wk, mq, consumed, decs, expect>>
+           /\ mir' = [mir EXCEPT !.outs = @ + 1] /\ UNCHANGED <<q, wk, mq, consumed, decs, expect>>
 TEnd == /\ Is("End") /\ F(Ev, "n", 0) = decs /\ mq = <<>> /\ q = <<>>
         /\ Cardinality({consumed[a] : a \in 1..Len(consumed)}) = Len(consumed)       \* no message twice
         /\ {consumed[a] : a \in 1..Len(consumed)} = expect
-        /\ UNCHANGED <<q, wk, mq, consumed, decs, expect>>
+        /\ (mir.on = 1 => mir.outs = mir.deqs)      \* mirroring on, its queue never full: every datagram taken was copied to it
+        /\ UNCHANGED <<q, wk, mq, consumed, decs, expect, mir>>
 (* dynamic workers: a worker told to quit leaves at its select, never with a datagram in hand *)
-TRetire == Is("Retire") /\ UNCHANGED <<q, wk, mq, consumed, decs, expect>>
+TRetire == Is("Retire") /\ UNCHANGED <<q, wk, mq, consumed, decs, expect, mir>>
 TGone == /\ Is("Gone") /\ W(Ev.w).gate \in {"Top", "none"}
-         /\ wk' = Put(wk, Ev.w, Idle) /\ UNCHANGED <<q, mq, consumed, decs, expect>>
+         /\ wk' = Put(wk, Ev.w, Idle) /\ UNCHANGED <<q, mq, consumed, decs, expect, mir>>
 TraceNext == TMirOut \/ TRetire \/ TGone \/ TReset \/ TRecv \/ TDeq \/ TDec \/ TMar \/ TTop \/ TConsume \/ TProbe \/ TEnd
 TraceSpec == TraceInit /\ [][TraceNext]_tvars
 Mark == TLCSet(1, IF TLCGet(1) < l THEN l ELSE TLCGet(1))
